@@ -90,3 +90,668 @@ Proof.
       destruct (mfl_frame (bfs_subtree g x) (inprog_remove x s2)) as (M & _). rewrite M in Hc.
       unfold inprog_remove in Hc. sp. rewrite F1, C1 in Hc. exact Hc.
 Qed.
+
+Lemma execute_record_outcome_new c g x r s : dry c = false ->
+  let s' := execute_record_gen c g x r s in
+  exists new, evs s' = new ++ evs s /\
+    ((exists j, In (ESubmit x (kind_of r) (scheduled (attr g x)) (Some j)) new) \/
+     In x (failed s')).
+Proof.
+  intros D. cbv zeta. unfold execute_record_gen. rewrite D.
+  set (s1 := if negb r then emit (EGen x) s else s).
+  assert (E1 : evs s1 = (if negb r then [EGen x] else []) ++ evs s) by (subst s1; destruct (negb r); reflexivity).
+  destruct (submit_attempts g x r (attempts c) s1) as [ok s2] eqn:E. destruct ok.
+  - destruct (submit_attempts_ok_new g x r _ _ _ E) as (j & new2 & V1 & V2).
+    exists (new2 ++ (if negb r then [EGen x] else [])). split.
+    + destruct (negb (scheduled (attr g x)));
+        [change (evs s2 = (new2 ++ (if negb r then [EGen x] else [])) ++ evs s)
+        |change (evs s2 = (new2 ++ (if negb r then [EGen x] else [])) ++ evs s)];
+        rewrite V1, E1, app_assoc; reflexivity.
+    + left. exists j. apply in_app_iff. auto.
+  - apply submit_attempts_spec in E. destruct E as [_ _ _ (new2 & V1 & _)].
+    destruct (mfl_frame (bfs_subtree g x) (inprog_remove x s2)) as (_ & _ & _ & _ & _ & _ & M & _).
+    exists (new2 ++ (if negb r then [EGen x] else [])). split.
+    + rewrite M. change (evs (inprog_remove x s2)) with (evs s2). rewrite V1, E1, app_assoc. reflexivity.
+    + right. apply mfl_failed. left. apply bfs_subtree_root.
+Qed.
+
+(** * The event log of a poll *)
+Definition subm_ev (e : event) : Prop :=
+  (exists x, e = EGen x) \/ (exists x k sc res, e = ESubmit x k sc res).
+
+Section Evs.
+Variables (c : cfg) (g : graph) (p : pin) (L : list event).
+Hypothesis Lc : cancel_req p = true -> exists js, In (ECancel js) L.
+Hypothesis Lk : dry c = false -> exists js, In (ECheck js) L.
+
+Definition Japp (a : conf) : Prop :=
+  let '(t, _, _, _) := a in exists new, evs t = new ++ L /\ forall e, In e new -> subm_ev e.
+
+Lemma sub_ev_subm x r e : sub_ev g x r e -> subm_ev e.
+Proof. intros [->|[res ->]]; [left; eauto|right; eauto]. Qed.
+
+Lemma Japp_step a b : pstep c g p a b -> Japp a -> Japp b.
+Proof.
+  intros St. destruct St as [t Cq I Ev0|t D I Ev0|t cl ca done x o t' cl' ca' D Q Hin Hnd Hinc I P Hx Cr Nm E
+                            |t a cl ca done I P|t a ca done I P|t x done Hx I|t done I Cr]; unfold Japp.
+  - intros (new & E & _). exfalso. destruct (Lc Cq) as [js Hjs]. rewrite Ev0 in E.
+    destruct new; [cbn in E; subst L; destruct Hjs|discriminate].
+  - intros (new & E & Hn). exfalso. destruct (Lk D) as [js Hjs].
+    assert (H : In (ECheck js) (evs t)) by (rewrite E; apply in_app_iff; auto).
+    destruct (Ev0 _ H) as [js' H']. discriminate.
+  - intros (new & En & Hn).
+    assert (Hlr : x < length (recs t)) by (rewrite (i_len_recs g t I); apply (i_bound g t I); auto).
+    destruct (hr_frame c g t cl ca x o t' cl' ca' Hlr E) as [(Ev & _)|(_ & _ & _ & Et)].
+    + exists new. rewrite Ev. auto.
+    + destruct (execute_record_evs c g x true (rec_inc_restarts x (rec_set_status x TIMEDOUT t))) as (nw & V1 & V2 & _).
+      rewrite <- Et in V1. change (evs (rec_inc_restarts x (rec_set_status x TIMEDOUT t))) with (evs t) in V1.
+      exists (nw ++ new). split; [rewrite V1, En, app_assoc; reflexivity|].
+      intros e He. apply in_app_iff in He. destruct He as [He|He]; auto. eapply sub_ev_subm; eauto.
+  - intros H. exact H.
+  - intros H. exact H.
+  - intros (new & En & Hn). destruct (stage_node_frame g t x) as (_ & _ & _ & _ & _ & _ & F7 & _).
+    exists new. rewrite F7. auto.
+  - intros (new & En & Hn). unfold launch_body_gen. destruct (ready t) as [|x rest]; [eauto|].
+    change (canceled (set_ready t rest)) with (canceled t). destruct (canceled t); [exists new; auto|].
+    destruct (execute_record_evs c g x false (set_ready t rest)) as (nw & V1 & V2 & _).
+    change (evs (set_ready t rest)) with (evs t) in V1.
+    exists (nw ++ new). split; [rewrite V1, En, app_assoc; reflexivity|].
+    intros e He. apply in_app_iff in He. destruct He as [He|He]; auto. eapply sub_ev_subm; eauto.
+Qed.
+End Evs.
+
+(** the adapter calls of a poll: an optional cancel, the status query unless it is a dry run,
+    then script generations and submissions only *)
+Theorem poll_evs c g s p : WF g -> Inv g s -> valid_pin s p = true ->
+  exists new, evs (fst (poll c g s p)) = new ++ evs (poll_mid c p s) /\ forall e, In e new -> subm_ev e.
+Proof.
+  intros W I V. destruct (poll_reach_mid c g p W s I V) as [_ R].
+  assert (Lc : cancel_req p = true -> exists js, In (ECancel js) (evs (poll_mid c p s))).
+  { intros Cq. unfold poll_mid. rewrite Cq. destruct (negb (dry c)); cbn; eauto. }
+  assert (Lk : dry c = false -> exists js, In (ECheck js) (evs (poll_mid c p s))).
+  { intros D. unfold poll_mid. rewrite D. cbn. eauto. }
+  assert (J0 : Japp (evs (poll_mid c p s)) (poll_mid c p s, [], [], [])) by (exists []; split; [reflexivity|intros ? []]).
+  exact (psteps_ind_inv c g p (Japp (evs (poll_mid c p s))) (Japp_step c g p _ Lc Lk) _ _ R J0).
+Qed.
+
+(** * Outcome of the submissions of a poll *)
+Section Subs.
+Variables (c : cfg) (g : graph) (p : pin).
+Hypothesis W : WF g.
+
+Definition has_ok (x : nat) (es : list event) : Prop := exists k sc j, In (ESubmit x k sc (Some j)) es.
+
+Record Jb (t : st) (done : list report) : Prop := {
+  jb_r : forall x sc res, In (ESubmit x Restart sc res) (evs t) -> In x (map fst done);
+  jb_none : forall x k sc, In (ESubmit x k sc None) (evs t) -> has_ok x (evs t) \/ In x (failed t);
+  jb_some : forall x, has_ok x (evs t) -> In x (inprog t) \/ In x (completed t) }.
+Definition Jbc (a : conf) : Prop := let '(t, _, _, done) := a in Jb t done.
+
+(** events of one _execute_record call, classified *)
+Lemma er_events x r t :
+  let t' := execute_record_gen c g x r t in
+  exists new, evs t' = new ++ evs t /\ (forall e, In e new -> sub_ev g x r e) /\
+    (forall k sc, In (ESubmit x k sc None) new -> has_ok x new \/ In x (failed t')) /\
+    (has_ok x new -> In x (inprog t') \/ In x (completed t')).
+Proof.
+  cbv zeta. destruct (execute_record_evs c g x r t) as (new & V1 & V2 & V3 & _).
+  exists new. splits; auto.
+  - intros k sc H.
+    assert (D : dry c = false).
+    { destruct (dry c) eqn:D; auto. specialize (V3 eq_refl _ H). discriminate. }
+    destruct (execute_record_outcome_new c g x r t D) as (new' & V1' & [[j Hj]|Hf]); auto.
+    left. rewrite V1 in V1'. apply app_inv_tail in V1'. subst new'. unfold has_ok. eauto.
+  - intros H. eapply execute_record_some; eauto.
+Qed.
+
+Lemma has_ok_app x a b : has_ok x (a ++ b) <-> has_ok x a \/ has_ok x b.
+Proof.
+  unfold has_ok. split.
+  - intros (k & sc & j & H). apply in_app_iff in H. destruct H; eauto 6.
+  - intros [(k & sc & j & H)|(k & sc & j & H)]; exists k, sc, j; apply in_app_iff; auto.
+Qed.
+
+Lemma has_ok_other x y r new : (forall e, In e new -> sub_ev g x r e) -> has_ok y new -> y = x.
+Proof. intros H (k & sc & j & Hin). destruct (H _ Hin) as [E|[res E]]; inversion E; auto. Qed.
+
+Lemma Jb_step a b : pstep c g p a b -> Jbc a -> Jbc b.
+Proof.
+  intros St. destruct St as [t Cq I Ev0|t D I Ev0|t cl ca done x o t' cl' ca' D Q Hin Hnd Hinc I P Hx Cr Nm E
+                            |t a cl ca done I P|t a ca done I P|t x done Hx I|t done I Cr]; unfold Jbc.
+  - intros [A1 A2 A3]. constructor.
+    + intros x sc res [H|H]; [discriminate|eauto].
+    + intros x k sc [H|H]; [discriminate|]. destruct (A2 x k sc H) as [(k' & sc' & j & B)|B]; auto.
+      left. exists k', sc', j. right. exact B.
+    + intros x (k & sc & j & [H|H]); [discriminate|]. apply A3. unfold has_ok. eauto.
+  - intros [A1 A2 A3]. constructor.
+    + intros x sc res [H|H]; [discriminate|eauto].
+    + intros x k sc [H|H]; [discriminate|]. destruct (A2 x k sc H) as [(k' & sc' & j & B)|B]; auto.
+      left. exists k', sc', j. right. exact B.
+    + intros x (k & sc & j & [H|H]); [discriminate|]. apply A3. unfold has_ok. eauto.
+  - intros [A1 A2 A3].
+    assert (Hlr : x < length (recs t)) by (rewrite (i_len_recs g t I); apply (i_bound g t I); auto).
+    (* all submissions so far are Restart submissions of nodes already dispatched *)
+    assert (Old : forall y, has_ok y (evs t) -> y <> x).
+    { intros y (k & sc & j & H) ->. destruct k; [exact (Nm x sc (Some j) H)|].
+      apply Hnd. eapply A1; eauto. }
+    destruct (hr_frame c g t cl ca x o t' cl' ca' Hlr E)
+      as [(Ev & Rs & Ff & Cc & Kk & Rd & Ip & _)|(RB & -> & -> & Et)].
+    + constructor; rewrite ?Ev.
+      * intros y sc res H. rewrite map_app, in_app_iff. left. eauto.
+      * intros y k sc H. destruct (A2 y k sc H); auto.
+      * intros y H. destruct (A3 y H) as [B|B]; [left; apply Ip; auto|right; auto].
+    + set (t1 := rec_inc_restarts x (rec_set_status x TIMEDOUT t)) in *.
+      pose proof (execute_record_sets c g x true t1) as ES. rewrite <- Et in ES.
+      destruct (er_events x true t1) as (new & V1 & V2 & V3 & V4). rewrite <- Et in V1, V3, V4.
+      change (evs t1) with (evs t) in V1.
+      constructor; rewrite ?V1.
+      * intros y sc res H. rewrite map_app, in_app_iff. apply in_app_iff in H. destruct H as [H|H]; [|left; eauto].
+        right. destruct (V2 _ H) as [B|[r B]]; inversion B. left. reflexivity.
+      * intros y k sc H. apply in_app_iff in H. destruct H as [H|H].
+        -- assert (y = x) by (destruct (V2 _ H) as [B|[r B]]; inversion B; auto). subst y.
+           destruct (V3 k sc H) as [B|B]; auto. left. apply has_ok_app. auto.
+        -- destruct (A2 y k sc H) as [B|B]; [left; apply has_ok_app; auto|right; apply (er_f1 _ _ _ _ ES); auto].
+      * intros y H. apply has_ok_app in H. destruct H as [H|H].
+        -- assert (y = x) by (eapply has_ok_other; eauto). subst y. auto.
+        -- destruct (A3 y H) as [B|B]; [left; apply (er_i1 _ _ _ _ ES); auto|right; apply (er_c1 _ _ _ _ ES); auto].
+  - intros [A1 A2 A3]. constructor; auto.
+    intros x k sc H. destruct (A2 x k sc H) as [B|B]; auto. right.
+    unfold rec_set_status, failed_add. sp. apply In_sadd. auto.
+  - intros [A1 A2 A3]. constructor; auto.
+  - intros [A1 A2 A3]. destruct (stage_node_frame g t x) as (F1 & F2 & F3 & _ & _ & _ & F7 & _).
+    constructor; rewrite ?F1, ?F2, ?F3, ?F7; auto.
+  - intros [A1 A2 A3]. unfold launch_body_gen. destruct (ready t) as [|x rest] eqn:E; [constructor; auto|].
+    destruct (ready_head_facts g t x rest I E) as (Hl & Hc & Hi & Hr & Hf & Hca & Hp).
+    change (canceled (set_ready t rest)) with (canceled t). destruct (canceled t) eqn:Cn; [constructor; auto|].
+    set (t1 := set_ready t rest).
+    pose proof (execute_record_sets c g x false t1) as ES.
+    destruct (er_events x false t1) as (new & V1 & V2 & V3 & V4). change (evs t1) with (evs t) in V1.
+    assert (Old : forall y, has_ok y (evs t) -> y <> x).
+    { intros y H ->. destruct (A3 x H); contradiction. }
+    constructor; rewrite ?V1.
+    + intros y sc res H. apply in_app_iff in H. destruct H as [H|H]; [|eauto].
+      destruct (V2 _ H) as [B|[r B]]; inversion B.
+    + intros y k sc H. apply in_app_iff in H. destruct H as [H|H].
+      * assert (y = x) by (destruct (V2 _ H) as [B|[r B]]; inversion B; auto). subst y.
+        destruct (V3 k sc H) as [B|B]; auto. left. apply has_ok_app. auto.
+      * destruct (A2 y k sc H) as [B|B]; [left; apply has_ok_app; auto|right; apply (er_f1 _ _ _ _ ES); auto].
+    + intros y H. apply has_ok_app in H. destruct H as [H|H].
+      * assert (y = x) by (eapply has_ok_other; eauto). subst y. auto.
+      * destruct (A3 y H) as [B|B]; [left; apply (er_i1 _ _ _ _ ES); auto|right; apply (er_c1 _ _ _ _ ES); auto].
+Qed.
+End Subs.
+
+Theorem poll_subs c g s p : WF g -> Inv g s -> valid_pin s p = true ->
+  let s' := fst (poll c g s p) in
+  (forall x k sc, In (ESubmit x k sc None) (evs s') -> has_ok x (evs s') \/ In x (failed s')) /\
+  (forall x, has_ok x (evs s') -> In x (inprog s') \/ In x (completed s')).
+Proof.
+  intros W I V. cbv zeta. pose proof (poll_reach c g p W s I V) as R.
+  assert (J0 : Jbc (conf0 s p)) by (unfold Jbc, conf0, poll_start; constructor; cbn; [intros ? ? ? []|intros ? ? ? []|intros ? (? & ? & ? & [])]).
+  pose proof (psteps_ind_inv c g p Jbc (Jb_step c g p) _ _ R J0) as [A1 A2 A3]. auto.
+Qed.
+
+(** * Records touched by _execute_record, once more *)
+Lemma execute_record_recs2 c g x r s : WF g -> Inv g s -> x < length g ->
+  let s' := execute_record_gen c g x r s in
+  (forall y, y <> x -> getrec s' y = getrec s y \/
+     (In y (bfs_subtree g x) /\ status (getrec s' y) = FAILED /\ forall z, In z (bfs_subtree g x) -> In z (failed s'))) /\
+  (fc_status (status (getrec s' x)) -> fc_status (status (getrec s x)) \/ In x (failed s')).
+Proof.
+  intros W I Hx. cbv zeta. unfold execute_record_gen.
+  set (s1 := if negb r then emit (EGen x) s else s).
+  assert (G1 : forall y, getrec s1 y = getrec s y) by (subst s1; destruct (negb r); reflexivity).
+  assert (L1 : length (recs s1) = length g).
+  { rewrite <- (i_len_recs g s I). subst s1; destruct (negb r); reflexivity. }
+  destruct (dry c).
+  - split.
+    + intros y Hn. left. change (getrec (rec_set_status x DRYRUN s1) y = getrec s y).
+      rewrite getrec_set_status_neq, G1; auto.
+    + change (fc_status (status (getrec (rec_set_status x DRYRUN s1) x)) -> fc_status (status (getrec s x)) \/ In x (failed (completed_add x (rec_set_status x DRYRUN s1)))).
+      rewrite getrec_set_status_eq by lia. cbn. intros [H|H]; discriminate.
+  - destruct (submit_attempts g x r (attempts c) s1) as [ok s2] eqn:E.
+    apply submit_attempts_spec in E. destruct E as [R _ _ _]. destruct R as [SS RL RO RR RS].
+    assert (St2 : fc_status (status (getrec s2 x)) -> fc_status (status (getrec s x))).
+    { rewrite <- G1. destruct RS as [E|[E|E]]; rewrite E; auto; intros [H|H]; discriminate. }
+    destruct ok.
+    + destruct (negb (scheduled (attr g x))).
+      * split.
+        -- intros y Hn. left. change (getrec (rec_set_status x FINISHED (inprog_add x s2)) y = getrec s y).
+           rewrite getrec_set_status_neq by auto. change (getrec s2 y = getrec s y). rewrite RO, G1; auto.
+        -- change (fc_status (status (getrec (rec_set_status x FINISHED (inprog_add x s2)) x)) -> fc_status (status (getrec s x)) \/
+                   In x (failed (inprog_remove x (completed_add x (rec_set_status x FINISHED (inprog_add x s2)))))).
+           rewrite getrec_set_status_eq by (unfold inprog_add; sp; lia). cbn. intros [H|H]; discriminate.
+      * split.
+        -- intros y Hn. left. change (getrec s2 y = getrec s y). rewrite RO, G1; auto.
+        -- intros H. left. apply St2. exact H.
+    + set (s3 := inprog_remove x s2).
+      assert (L3 : length (recs s3) = length g) by (unfold s3, inprog_remove; sp; lia).
+      split.
+      * intros y Hn. destruct (in_dec Nat.eq_dec y (bfs_subtree g x)) as [Hb|Hb].
+        -- right. splits; auto.
+           ++ apply mfl_status_in; auto. rewrite L3. eapply bfs_subtree_lt; eauto.
+           ++ intros z Hz. apply mfl_failed. auto.
+        -- left. rewrite mfl_getrec_notin by auto. change (getrec s2 y = getrec s y). rewrite RO, G1; auto.
+      * intros _. right. apply mfl_failed. left. apply bfs_subtree_root.
+Qed.
+
+(** * Provenance of completed nodes *)
+Section Comp.
+Variables (c : cfg) (g : graph) (p : pin) (s : st).
+Hypothesis W : WF g.
+
+Definition prov (t : st) (done : list report) (x : nat) : Prop :=
+  In (x, Some FINISHED) done \/ (exists k j, In (ESubmit x k false (Some j)) (evs t)) \/
+  status (getrec t x) = DRYRUN.
+
+Record Jc (t : st) (done : list report) : Prop := {
+  jc_mono : forall x, In x (completed s) -> In x (completed t);
+  jc_keep : forall x, In x (completed s) -> getrec t x = getrec s x;
+  jc_prov : forall x, In x (completed t) -> In x (completed s) \/ prov t done x }.
+Definition Jcc (a : conf) : Prop := let '(t, _, _, done) := a in Jc t done.
+
+Lemma Jc_next t done t' done' :
+  (forall x, In x (completed t) -> getrec t' x = getrec t x) ->
+  (forall x, In x (completed t) -> In x (completed t')) ->
+  (forall e, In e (evs t) -> In e (evs t')) -> incl done done' ->
+  (forall x, In x (completed t') -> In x (completed t) \/ prov t' done' x) ->
+  Jc t done -> Jc t' done'.
+Proof.
+  intros K M E D N [A1 A2 A3]. constructor.
+  - auto.
+  - intros x Hx. rewrite K; auto.
+  - intros x Hx. destruct (N x Hx) as [H|H]; auto.
+    destruct (A3 x H) as [B|[B|[(k & j & B)|B]]]; auto; right; unfold prov.
+    + left. auto.
+    + right. left. exists k, j. auto.
+    + right. right. rewrite K; auto.
+Qed.
+
+Lemma Jc_step a b : pstep c g p a b -> Jcc a -> Jcc b.
+Proof.
+  intros St. destruct St as [t Cq I Ev0|t D I Ev0|t cl ca done x o t' cl' ca' D Q Hin Hnd Hinc I P Hx Cr Nm E
+                            |t a cl ca done I P|t a ca done I P|t x done Hx I|t done I Cr]; unfold Jcc.
+  - apply Jc_next; auto; try apply incl_refl. intros e He. right. exact He.
+  - apply Jc_next; auto; try apply incl_refl. intros e He. right. exact He.
+  - destruct (inprog_facts g t x I Hx) as (Hl & Hc & Hr & Hf & Hca & Hp & Hi).
+    assert (Hlr : x < length (recs t)) by (rewrite (i_len_recs g t I); exact Hl).
+    destruct (hr_mono c g t cl ca x o t' cl' ca' I P Hx E) as (M1 & M2 & M3 & M4 & M5).
+    destruct (hr_bounds c g t cl ca x o t' cl' ca' W I Hx E) as (B1 & B2 & B3 & B4 & B5 & B6).
+    apply Jc_next; auto.
+    + intros y Hy. apply B4. intros Hb. destruct (pend_bfs g t x W I Hx y Hb) as (_ & A & _). contradiction.
+    + intros z Hz. apply in_app_iff. auto.
+    + (* new completed members *)
+      intros y Hy. unfold handle_report_gen in E.
+      destruct o as [[]|]; cbn [oeqb state_eqb] in E; try (inversion E; subst t' cl' ca'; left; exact Hy).
+      * inversion E; subst t' cl' ca'; clear E.
+        unfold inprog_remove, completed_add, rec_set_status in Hy. sp. apply In_sadd in Hy.
+        destruct Hy as [->|Hy]; auto. right. left. apply in_app_iff. right. left. reflexivity.
+      * destruct (has_restart (attr g x) && negb (canceled t)); [|inversion E; subst t' cl' ca'; left; exact Hy].
+        unfold mark_restart_gen in E.
+        destruct ((rlimit (attr g x) =? 0) || (restarts (getrec (rec_set_status x TIMEDOUT t) x) <? rlimit (attr g x)));
+          [|inversion E; subst t' cl' ca'; left; exact Hy].
+        inversion E; subst t' cl' ca'; clear E.
+        set (t1 := rec_inc_restarts x (rec_set_status x TIMEDOUT t)) in *.
+        pose proof (execute_record_sets c g x true t1) as ES.
+        destruct (er_c2 _ _ _ _ ES y Hy) as [->|Hy']; [|left; exact Hy'].
+        destruct (execute_record_evs c g x true t1) as (new & V1 & _).
+        assert (Hl1 : x < length (recs t1)) by (unfold t1; rewrite len_recs_inc_restarts, len_recs_set_status; exact Hlr).
+        destruct (execute_record_completed c g x true t1 new V1 Hy Hc Hl1) as [Hd|(k & j & Hk)].
+        -- right. right. right. exact Hd.
+        -- right. right. left. exists k, j. rewrite V1. apply in_app_iff. auto.
+  - destruct (P a) as (Al & Ac & Ai & Ar); [left; left; reflexivity|].
+    apply Jc_next; auto; try apply incl_refl.
+    intros y Hy. rewrite getrec_set_status_neq; [reflexivity|]. intros ->. contradiction.
+  - destruct (P a) as (Al & Ac & Ai & Ar); [right; left; reflexivity|].
+    apply Jc_next; auto; try apply incl_refl.
+    intros y Hy. rewrite getrec_set_status_neq; [reflexivity|]. intros ->. contradiction.
+  - destruct (stage_node_frame g t x) as (F1 & _ & _ & _ & F5 & _ & F7 & _).
+    apply Jc_next; unfold getrec; rewrite ?F1, ?F5, ?F7; auto; try apply incl_refl.
+  - unfold launch_body_gen. destruct (ready t) as [|x rest] eqn:E; auto.
+    destruct (ready_head_facts g t x rest I E) as (Hl & Hc & Hi & Hr & Hf & Hca & Hp).
+    pose proof (Inv_pop g x rest t I E) as I1.
+    change (canceled (set_ready t rest)) with (canceled t). destruct (canceled t) eqn:Cn.
+    + apply Jc_next; auto; try apply incl_refl.
+      intros y Hy. change (getrec (rec_set_status x CANCELLED t) y = getrec t y).
+      rewrite getrec_set_status_neq; [reflexivity|]. intros ->. contradiction.
+    + set (t1 := set_ready t rest).
+      pose proof (execute_record_sets c g x false t1) as ES.
+      destruct (execute_record_evs c g x false t1) as (new & V1 & _).
+      destruct (execute_record_recs2 c g x false t1 W I1 Hl) as (R2 & _).
+      apply Jc_next; try apply incl_refl.
+      * intros y Hy. assert (Hne : y <> x) by (intros ->; contradiction).
+        destruct (R2 y Hne) as [R|(B & _)]; [exact R|]. exfalso.
+        destruct (desc_untracked g t x y W I (bfs_subtree_sound g x y W Hl B) (fun E' => Hne (eq_sym E')) Hc) as (A & _).
+        contradiction.
+      * apply (er_c1 _ _ _ _ ES).
+      * intros e He. rewrite V1. apply in_app_iff. right. exact He.
+      * intros y Hy. destruct (er_c2 _ _ _ _ ES y Hy) as [->|Hy']; [|left; exact Hy'].
+        assert (Hl1 : x < length (recs t1)) by (unfold t1; sp; rewrite (i_len_recs g t I); exact Hl).
+        destruct (execute_record_completed c g x false t1 new V1 Hy Hc Hl1) as [Hd|(k & j & Hk)].
+        -- right. right. right. exact Hd.
+        -- right. right. left. exists k, j. rewrite V1. apply in_app_iff. auto.
+Qed.
+
+Lemma Jc_start : Jcc (conf0 s p).
+Proof. unfold Jcc, conf0, poll_start. constructor; auto. Qed.
+End Comp.
+
+Theorem poll_completed c g s p : WF g -> Inv g s -> valid_pin s p = true ->
+  let s' := fst (poll c g s p) in
+  (forall x, In x (completed s) -> getrec s' x = getrec s x) /\
+  (forall x, In x (completed s') -> In x (completed s) \/ prov s' (done_final c p) x).
+Proof.
+  intros W I V. cbv zeta. pose proof (poll_reach c g p W s I V) as R.
+  pose proof (psteps_ind_inv c g p (Jcc s) (Jc_step c g p s W) _ _ R (Jc_start p s)) as [A1 A2 A3]. auto.
+Qed.
+
+(** * Status FAILED/CANCELLED means failed/cancelled; own-cancelled nodes keep their status *)
+Ltac gsn5 := unfold getrec, inprog_remove, failed_add, completed_add, rec_set_status; sp; apply nth_upd_neq; auto.
+
+Lemma hr_ja c g t cl ca x o t' cl' ca' : WF g -> Inv g t -> Pend g t cl ca -> In x (inprog t) ->
+  ~ fc_status (status (getrec t x)) ->
+  handle_report_gen c g (t, cl, ca) (x, o) = (t', cl', ca') ->
+  (forall y, y <> x -> getrec t' y = getrec t y \/
+     (In y (bfs_subtree g x) /\ status (getrec t' y) = FAILED /\ forall z, In z (bfs_subtree g x) -> In z (failed t'))) /\
+  (fc_status (status (getrec t' x)) -> In x (failed t') \/ In x cl' \/ In x ca') /\
+  (In x ca' -> status (getrec t' x) = CANCELLED) /\
+  (In x cl' -> ~ In x ca').
+Proof.
+  intros W I P Hx Hnf E.
+  destruct (inprog_facts g t x I Hx) as (Hl & Hc & Hr & Hf & Hca & Hp & Hi).
+  assert (Hlr : x < length (recs t)) by (rewrite (i_len_recs g t I); exact Hl).
+  assert (Pcl : ~ In x cl) by (intros H; destruct (P x) as (_ & _ & A & _); auto).
+  assert (Pca : ~ In x ca) by (intros H; destruct (P x) as (_ & _ & A & _); auto).
+  assert (Oth : forall v s0, (forall y, getrec s0 y = getrec t y) ->
+            forall y, y <> x -> getrec (rec_set_status x v s0) y = getrec t y \/
+              (In y (bfs_subtree g x) /\ status (getrec (rec_set_status x v s0) y) = FAILED /\
+               forall z, In z (bfs_subtree g x) -> In z (failed (rec_set_status x v s0)))).
+  { intros v s0 H0 y Hn. left. rewrite getrec_set_status_neq by auto. apply H0. }
+  assert (Stx : forall v s0, length (recs s0) = length (recs t) -> status (getrec (rec_set_status x v s0) x) = v).
+  { intros v s0 H0. rewrite getrec_set_status_eq by (rewrite H0; exact Hlr). reflexivity. }
+  unfold handle_report_gen in E.
+  destruct o as [[]|]; cbn [oeqb state_eqb] in E;
+    try (inversion E; subst t' cl' ca'; clear E; splits; [intros y Hn; left; reflexivity|tauto|tauto|tauto]).
+  - (* RUNNING *)
+    inversion E; subst t' cl' ca'; clear E. splits; [intros y Hn; left; gsn5| |tauto|tauto].
+    rewrite Stx by reflexivity. intros [H|H]; discriminate.
+  - (* FINISHED *)
+    inversion E; subst t' cl' ca'; clear E. splits; [intros y Hn; left; gsn5| |tauto|tauto].
+    change (fc_status (status (getrec (rec_set_status x FINISHED t) x)) -> In x (failed t) \/ In x cl \/ In x ca).
+    rewrite Stx by reflexivity. intros [H|H]; discriminate.
+  - (* FAILED *)
+    inversion E; subst t' cl' ca'; clear E. splits; [intros y Hn; left; gsn5| |tauto|tauto].
+    intros _. right. left. apply In_set_union. left. apply bfs_subtree_root.
+  - (* TIMEDOUT *)
+    destruct (has_restart (attr g x) && negb (canceled t)).
+    + unfold mark_restart_gen in E.
+      destruct ((rlimit (attr g x) =? 0) || (restarts (getrec (rec_set_status x TIMEDOUT t) x) <? rlimit (attr g x))).
+      * inversion E; subst t' cl' ca'; clear E.
+        set (t1 := rec_inc_restarts x (rec_set_status x TIMEDOUT t)) in *.
+        assert (I1 : Inv g t1) by (apply Inv_inc_restarts, Inv_set_status; [discriminate|auto]).
+        destruct (execute_record_recs2 c g x true t1 W I1 Hl) as (R2 & R3).
+        splits; [| |tauto|tauto].
+        -- intros y Hn. destruct (R2 y Hn) as [R|R]; [left|right; exact R].
+           rewrite R. unfold t1. rewrite getrec_inc_restarts_neq by auto. apply getrec_set_status_neq. auto.
+        -- intros H. destruct (R3 H) as [H'|H']; auto. exfalso. unfold t1 in H'.
+           rewrite status_inc_restarts, Stx in H' by reflexivity. destruct H'; discriminate.
+      * inversion E; subst t' cl' ca'; clear E. splits; [intros y Hn; left; gsn5| |tauto|tauto].
+        change (fc_status (status (getrec (rec_set_status x TIMEDOUT t) x)) ->
+                In x (failed t) \/ In x (set_union (bfs_subtree g x) cl) \/ In x ca).
+        rewrite Stx by reflexivity. intros [H|H]; discriminate.
+    + inversion E; subst t' cl' ca'; clear E. splits; [intros y Hn; left; gsn5| |tauto|].
+      * change (fc_status (status (getrec (rec_set_status x TIMEDOUT t) x)) -> In x (failed (failed_add x (inprog_remove x (rec_set_status x TIMEDOUT t)))) \/
+                In x (srem x (set_union (bfs_subtree g x) cl)) \/ In x ca).
+        rewrite Stx by reflexivity. intros [H|H]; discriminate.
+      * rewrite In_srem. tauto.
+  - (* UNKNOWN *)
+    inversion E; subst t' cl' ca'; clear E. splits; [intros y Hn; left; gsn5| |tauto|tauto].
+    change (fc_status (status (getrec (rec_set_status x UNKNOWN t) x)) -> In x (failed t) \/ In x (set_union (bfs_subtree g x) cl) \/ In x ca).
+    rewrite Stx by reflexivity. intros [H|H]; discriminate.
+  - (* CANCELLED *)
+    inversion E; subst t' cl' ca'; clear E. splits; [intros y Hn; left; gsn5| | |tauto].
+    + intros _. right. right. apply In_set_union. left. apply bfs_subtree_root.
+    + intros _. apply Stx. reflexivity.
+Qed.
+
+Section Ja.
+Variables (c : cfg) (g : graph) (p : pin).
+Hypothesis W : WF g.
+
+Definition blocked (t : st) (cl ca : list nat) (a : nat) : Prop :=
+  exists q, In q (parents (attr g a)) /\ U t cl ca q.
+
+Record Ja (t : st) (cl ca : list nat) : Prop := {
+  ja_conv : forall x, fc_status (status (getrec t x)) -> U t cl ca x;
+  ja_blk : forall a, In a cl -> In a (cancelled t) \/ In a ca -> blocked t cl ca a;
+  ja_e6 : forall x, In x (cancelled t) \/ In x ca -> status (getrec t x) = CANCELLED \/ blocked t cl ca x }.
+Definition Jac (a : conf) : Prop := let '(t, cl, ca, _) := a in Ja t cl ca.
+
+Lemma blocked_mono t cl ca t' cl' ca' a :
+  (forall y, U t cl ca y -> U t' cl' ca' y) -> blocked t cl ca a -> blocked t' cl' ca' a.
+Proof. intros H (q & A & B). exists q. auto. Qed.
+
+(** strict members of a collected sub-tree are blocked once the whole sub-tree is pending/failed *)
+Lemma bfs_blocked t cl ca x y : x < length g -> In y (bfs_subtree g x) -> y <> x ->
+  (forall z, In z (bfs_subtree g x) -> U t cl ca z) -> blocked t cl ca y.
+Proof. intros Hx Hy Hn H. exact (bfs_member_parent g x y (U t cl ca) W Hx Hy Hn H). Qed.
+
+Lemma Ja_report t cl ca x o t' cl' ca' : Inv g t -> Pend g t cl ca -> In x (inprog t) ->
+  handle_report_gen c g (t, cl, ca) (x, o) = (t', cl', ca') -> Ja t cl ca -> Ja t' cl' ca'.
+Proof.
+  intros I P Hx E [A1 A2 A3].
+  destruct (inprog_facts g t x I Hx) as (Hl & Hc & Hr & Hf & Hca & Hp & Hi).
+  assert (Pcl : ~ In x cl) by (intros H; destruct (P x) as (_ & _ & A & _); auto).
+  assert (Pca : ~ In x ca) by (intros H; destruct (P x) as (_ & _ & A & _); auto).
+  assert (Hnf : ~ fc_status (status (getrec t x))).
+  { intros H. destruct (A1 x H) as [B|[B|[B|B]]]; contradiction. }
+  destruct (hr_ja c g t cl ca x o t' cl' ca' W I P Hx Hnf E) as (H1 & H2 & H3 & H4).
+  destruct (hr_mono c g t cl ca x o t' cl' ca' I P Hx E) as (M1 & M2 & M3 & M4 & M5).
+  destruct (hr_bounds c g t cl ca x o t' cl' ca' W I Hx E) as (B1 & B2 & B3 & B4 & B5 & B6).
+  (* whenever something new is collected, the whole sub-tree of x is pending or failed *)
+  assert (Whole : (cl' <> cl \/ ca' <> ca \/ exists z, In z (failed t') /\ ~ In z (failed t)) ->
+                  forall z, In z (bfs_subtree g x) -> U t' cl' ca' z).
+  { intros Hd. destruct B6 as [(E1 & E2 & E3)|[_ Ball]].
+    - exfalso. destruct Hd as [Hd|[Hd|(z & Z1 & Z2)]]; [congruence|congruence|]. apply Z2, E3, Z1.
+    - intros z Hz. unfold U. destruct (Ball z Hz) as [H|[H|H]]; auto. }
+  assert (NewCl : forall a, In a cl' -> ~ In a cl -> In a (bfs_subtree g x) /\ cl' <> cl).
+  { intros a Ha Hn. destruct (B1 a Ha) as [H|H]; [contradiction|]. split; auto. intros E'. rewrite E' in Ha. contradiction. }
+  assert (NewCa : forall a, In a ca' -> ~ In a ca -> In a (bfs_subtree g x) /\ ca' <> ca).
+  { intros a Ha Hn. destruct (B2 a Ha) as [H|H]; [contradiction|]. split; auto. intros E'. rewrite E' in Ha. contradiction. }
+  constructor.
+  - (* status FAILED/CANCELLED -> pending or failed/cancelled *)
+    intros y Hy. destruct (Nat.eq_dec y x) as [->|Hn].
+    + unfold U. destruct (H2 Hy) as [H|[H|H]]; auto.
+    + destruct (H1 y Hn) as [R|(Hb & Hs & Hw)].
+      * apply M1. apply A1. rewrite <- R. exact Hy.
+      * unfold U. left. apply Hw. exact Hb.
+  - (* members of both accumulators are blocked *)
+    intros a Ha Hc'. rewrite M5 in Hc'.
+    destruct (in_dec Nat.eq_dec a cl) as [Hic|Hni].
+    + destruct Hc' as [Hc'|Hc'].
+      * eapply blocked_mono; [exact M1|]. apply A2; auto.
+      * destruct (in_dec Nat.eq_dec a ca) as [Hj|Hnj]; [eapply blocked_mono; [exact M1|]; apply A2; auto|].
+        destruct (NewCa a Hc' Hnj) as [Hb Hd].
+        apply (bfs_blocked t' cl' ca' x a Hl Hb); [intros ->; contradiction|]. apply Whole. auto.
+    + destruct (NewCl a Ha Hni) as [Hb Hd].
+      assert (Hne : a <> x).
+      { intros ->. destruct Hc' as [Hc'|Hc']; [contradiction|]. exact (H4 Ha Hc'). }
+      apply (bfs_blocked t' cl' ca' x a Hl Hb Hne). apply Whole. auto.
+  - (* cancelled nodes: CANCELLED or blocked *)
+    intros y Hy. rewrite M5 in Hy.
+    destruct (Nat.eq_dec y x) as [->|Hn].
+    + destruct Hy as [Hy|Hy]; [contradiction|]. left. auto.
+    + assert (Old : In y (cancelled t) \/ In y ca -> status (getrec t' y) = CANCELLED \/ blocked t' cl' ca' y).
+      { intros Ho. destruct (A3 y Ho) as [Hs|Hb]; [|right; eapply blocked_mono; [exact M1|exact Hb]].
+        destruct (H1 y Hn) as [R|(Hb & _ & Hw)]; [left; rewrite R; exact Hs|].
+        right. apply (bfs_blocked t' cl' ca' x y Hl Hb Hn). intros z Hz. unfold U. left. auto. }
+      destruct Hy as [Hy|Hy]; [auto|].
+      destruct (in_dec Nat.eq_dec y ca) as [Hj|Hnj]; [auto|].
+      destruct (NewCa y Hy Hnj) as [Hb Hd]. right.
+      apply (bfs_blocked t' cl' ca' x y Hl Hb Hn). apply Whole. auto.
+Qed.
+
+Lemma Ja_step a b : pstep c g p a b -> Jac a -> Jac b.
+Proof.
+  intros St. destruct St as [t Cq I Ev0|t D I Ev0|t cl ca done x o t' cl' ca' D Q Hin Hnd Hinc I P Hx Cr Nm E
+                            |t a cl ca done I P|t a ca done I P|t x done Hx I|t done I Cr]; unfold Jac.
+  - intros [A1 A2 A3]. constructor; auto.
+  - intros [A1 A2 A3]. constructor; auto.
+  - eapply Ja_report; eauto.
+  - (* sweep failed *)
+    intros [A1 A2 A3]. destruct (P a) as (Al & Ac & Ai & Ar); [left; left; reflexivity|].
+    assert (Hlr : a < length (recs t)) by (rewrite (i_len_recs g t I); exact Al).
+    assert (MU : forall y, U t (a :: cl) ca y -> U (rec_set_status a FAILED (failed_add a t)) cl ca y).
+    { intros y. unfold U, rec_set_status, failed_add. sp. rewrite In_sadd. cbn [In]. intuition (subst; auto 6). }
+    constructor.
+    + intros y Hy. destruct (Nat.eq_dec a y) as [->|Hn].
+      * unfold U, rec_set_status, failed_add. sp. left. apply In_sadd. auto.
+      * apply MU. apply A1. rewrite getrec_set_status_neq in Hy by auto. exact Hy.
+    + intros a' Ha' Hc'. eapply blocked_mono; [exact MU|]. apply A2; [right; exact Ha'|exact Hc'].
+    + intros y Hy. destruct (Nat.eq_dec a y) as [->|Hn].
+      * right. eapply blocked_mono; [exact MU|]. apply A2; [left; reflexivity|exact Hy].
+      * rewrite getrec_set_status_neq by auto. destruct (A3 y Hy) as [H|H]; auto.
+        right. eapply blocked_mono; [exact MU|exact H].
+  - (* sweep cancelled *)
+    intros [A1 A2 A3]. destruct (P a) as (Al & Ac & Ai & Ar); [right; left; reflexivity|].
+    assert (Hlr : a < length (recs t)) by (rewrite (i_len_recs g t I); exact Al).
+    assert (MU : forall y, U t [] (a :: ca) y -> U (rec_set_status a CANCELLED (cancelled_add a t)) [] ca y).
+    { intros y. unfold U, rec_set_status, cancelled_add. sp. rewrite In_sadd. cbn [In]. intuition (subst; auto 6). }
+    constructor.
+    + intros y Hy. destruct (Nat.eq_dec a y) as [->|Hn].
+      * unfold U, rec_set_status, cancelled_add. sp. right. left. apply In_sadd. auto.
+      * apply MU. apply A1. rewrite getrec_set_status_neq in Hy by auto. exact Hy.
+    + intros a' [].
+    + intros y Hy. destruct (Nat.eq_dec a y) as [->|Hn].
+      * left. change (status (getrec (rec_set_status y CANCELLED (cancelled_add y t)) y) = CANCELLED).
+        rewrite getrec_set_status_eq; auto.
+      * rewrite getrec_set_status_neq by auto.
+        assert (Hy' : In y (cancelled t) \/ In y (a :: ca)).
+        { unfold rec_set_status, cancelled_add in Hy. sp. rewrite In_sadd in Hy. cbn [In]. intuition. }
+        destruct (A3 y Hy') as [H|H]; auto. right. eapply blocked_mono; [exact MU|exact H].
+  - (* stage *)
+    intros [A1 A2 A3]. destruct (stage_node_frame g t x) as (F1 & F2 & F3 & F4 & F5 & _).
+    constructor; unfold blocked, U, getrec in *; rewrite ?F3, ?F4, ?F5; auto.
+  - (* launch *)
+    intros J. unfold launch_body_gen. destruct (ready t) as [|x rest] eqn:E; auto.
+    destruct (ready_head_facts g t x rest I E) as (Hl & Hc & Hi & Hr & Hf & Hca & Hp).
+    pose proof (Inv_pop g x rest t I E) as I1.
+    destruct J as [A1 A2 A3].
+    assert (Hlr : x < length (recs t)) by (rewrite (i_len_recs g t I); exact Hl).
+    assert (Hnf : ~ fc_status (status (getrec t x))).
+    { intros H. destruct (A1 x H) as [B|[B|[[]|[]]]]; contradiction. }
+    change (canceled (set_ready t rest)) with (canceled t). destruct (canceled t) eqn:Cn.
+    + assert (MU : forall y, U t [] [] y -> U (cancelled_add x (rec_set_status x CANCELLED (set_ready t rest))) [] [] y).
+      { intros y. unfold U, rec_set_status, cancelled_add. sp. rewrite In_sadd. tauto. }
+      constructor.
+      * intros y Hy. destruct (Nat.eq_dec x y) as [->|Hn].
+        -- unfold U, rec_set_status, cancelled_add. sp. right. left. apply In_sadd. auto.
+        -- apply MU. apply A1. change (fc_status (status (getrec (rec_set_status x CANCELLED t) y))) in Hy.
+           rewrite getrec_set_status_neq in Hy by auto. exact Hy.
+      * intros a [].
+      * intros y Hy. destruct (Nat.eq_dec x y) as [->|Hn].
+        -- left. change (status (getrec (rec_set_status y CANCELLED t) y) = CANCELLED).
+           rewrite getrec_set_status_eq; auto.
+        -- change (status (getrec (rec_set_status x CANCELLED t) y) = CANCELLED \/ blocked (cancelled_add x (rec_set_status x CANCELLED (set_ready t rest))) [] [] y).
+           rewrite getrec_set_status_neq by auto.
+           assert (Hy' : In y (cancelled t) \/ In y []).
+           { unfold rec_set_status, cancelled_add in Hy. sp. rewrite In_sadd in Hy.
+             destruct Hy as [[Hy|Hy]|[]]; [congruence|auto]. }
+           destruct (A3 y Hy') as [H|H]; auto. right. eapply blocked_mono; [exact MU|exact H].
+    + set (t1 := set_ready t rest).
+      pose proof (execute_record_sets c g x false t1) as ES.
+      destruct (execute_record_recs2 c g x false t1 W I1 Hl) as (R2 & R3).
+      assert (MU : forall y, U t [] [] y -> U (execute_record_gen c g x false t1) [] [] y).
+      { intros y [H|[H|H]]; unfold U; rewrite ?(er_cancelled _ _ _ _ ES); auto.
+        left. apply (er_f1 _ _ _ _ ES). exact H. }
+      constructor.
+      * intros y Hy. destruct (Nat.eq_dec y x) as [->|Hn].
+        -- destruct (R3 Hy) as [H|H]; [contradiction|]. unfold U. auto.
+        -- destruct (R2 y Hn) as [R|(Hb & _ & Hw)].
+           ++ apply MU. apply A1. change (getrec t1 y) with (getrec t y) in R. rewrite <- R. exact Hy.
+           ++ unfold U. left. auto.
+      * intros a [].
+      * intros y Hy. rewrite (er_cancelled _ _ _ _ ES) in Hy. change (cancelled t1) with (cancelled t) in Hy.
+        assert (Hn : y <> x) by (intros ->; destruct Hy as [Hy|[]]; contradiction).
+        destruct (A3 y Hy) as [Hs|Hb]; [|right; eapply blocked_mono; [exact MU|exact Hb]].
+        destruct (R2 y Hn) as [R|(Hb & _ & Hw)]; [left; rewrite R; exact Hs|].
+        right. apply (bfs_blocked _ [] [] x y Hl Hb Hn). intros z Hz. unfold U. left. auto.
+Qed.
+
+Lemma Ja_boundary t : Inv g t -> Ja t [] [] ->
+  (forall x, fc_status (status (getrec t x)) -> FC t x) /\
+  (forall x, In x (cancelled t) -> incl (parents (attr g x)) (completed t) -> status (getrec t x) = CANCELLED).
+Proof.
+  intros I [A1 A2 A3]. split.
+  - intros x Hx. destruct (A1 x Hx) as [H|[H|[[]|[]]]]; unfold FC; auto.
+  - intros x Hx Hp. destruct (A3 x (or_introl Hx)) as [H|(q & Q1 & Q2)]; auto. exfalso.
+    assert (Fq : In q (failed t) \/ In q (cancelled t)) by (destruct Q2 as [H|[H|[[]|[]]]]; auto).
+    destruct (i_dj_fc g t I q Fq) as [A _]. apply A. apply Hp. exact Q1.
+Qed.
+End Ja.
+
+(** the invariant holds in every state after every poll once it holds before *)
+Theorem poll_Ja c g s p : WF g -> Inv g s -> valid_pin s p = true -> Ja g s [] [] ->
+  Ja g (fst (poll c g s p)) [] [].
+Proof.
+  intros W I V J. pose proof (poll_reach c g p W s I V) as R.
+  assert (J0 : Jac g (conf0 s p)).
+  { unfold Jac, conf0, poll_start. destruct J as [A1 A2 A3]. constructor; auto. }
+  exact (psteps_ind_inv c g p (Jac g) (Ja_step c g p W) _ _ R J0).
+Qed.
+
+Lemma init_Ja g : Ja g (init g) [] [].
+Proof.
+  assert (R : forall x, getrec (init g) x = dflt_rec).
+  { intros x. unfold getrec, init. cbn. revert x. induction g as [|a g' IH]; intros [|x]; cbn; auto. }
+  constructor.
+  - intros x. rewrite R. cbn. intros [H|H]; discriminate.
+  - intros a [].
+  - intros x [[]|[]].
+Qed.
+
+(** * The cancel flag after a poll *)
+Section Can.
+Variables (c : cfg) (g : graph) (p : pin) (L : list event) (cm : bool).
+Hypothesis Lc : cancel_req p = true -> exists js, In (ECancel js) L.
+Hypothesis Lk : dry c = false -> exists js, In (ECheck js) L.
+
+Definition Jcan (a : conf) : Prop := Japp L a /\ let '(t, _, _, _) := a in canceled t = cm.
+
+Lemma Jcan_step a b : pstep c g p a b -> Jcan a -> Jcan b.
+Proof.
+  intros St [JA JC]. split; [exact (Japp_step c g p L Lc Lk a b St JA)|].
+  destruct St as [t Cq I Ev0|t D I Ev0|t cl ca done x o t' cl' ca' D Q Hin Hnd Hinc I P Hx Cr Nm E
+                 |t a cl ca done I P|t a ca done I P|t x done Hx I|t done I Cr].
+  - exfalso. destruct JA as (new & E & _). destruct (Lc Cq) as [js Hjs]. rewrite Ev0 in E.
+    destruct new; [cbn in E; subst L; destruct Hjs|discriminate].
+  - exact JC.
+  - rewrite (hr_canceled _ _ _ _ _ _ _ _ _ _ E). exact JC.
+  - exact JC.
+  - exact JC.
+  - destruct (stage_node_frame g t x) as (_ & _ & _ & _ & _ & F6 & _). rewrite F6. exact JC.
+  - rewrite launch_body_canceled. exact JC.
+Qed.
+End Can.
+
+Theorem poll_canceled c g s p : WF g -> Inv g s -> valid_pin s p = true ->
+  canceled (fst (poll c g s p)) = canceled s || cancel_req p.
+Proof.
+  intros W I V. destruct (poll_reach_mid c g p W s I V) as [_ R].
+  assert (Lc : cancel_req p = true -> exists js, In (ECancel js) (evs (poll_mid c p s))).
+  { intros Cq. unfold poll_mid. rewrite Cq. destruct (negb (dry c)); cbn; eauto. }
+  assert (Lk : dry c = false -> exists js, In (ECheck js) (evs (poll_mid c p s))).
+  { intros D. unfold poll_mid. rewrite D. cbn. eauto. }
+  assert (J0 : Jcan (evs (poll_mid c p s)) (canceled (poll_mid c p s)) (poll_mid c p s, [], [], [])).
+  { split; [exists []; split; [reflexivity|intros ? []]|reflexivity]. }
+  pose proof (psteps_ind_inv c g p _ (Jcan_step c g p _ (canceled (poll_mid c p s)) Lc Lk) _ _ R J0) as [_ JC].
+  rewrite JC. unfold poll_mid, poll_start. destruct (cancel_req p), (negb (dry c)); cbn; rewrite ?orb_true_r, ?orb_false_r; reflexivity.
+Qed.
+
+(** the event log at the query point *)
+Lemma poll_mid_evs c p s :
+  evs (poll_mid c p s) =
+    (if negb (dry c) then [ECheck (map (lastjob (if cancel_req p then cancel_study_gen (poll_start s p) else poll_start s p))
+                                        (inprog (if cancel_req p then cancel_study_gen (poll_start s p) else poll_start s p)))] else []) ++
+    (if cancel_req p then [ECancel (map (lastjob (poll_start s p)) (inprog (poll_start s p)))] else []).
+Proof. unfold poll_mid. destruct (negb (dry c)), (cancel_req p); reflexivity. Qed.
